@@ -208,6 +208,9 @@ def e2e(s, viol, F):
             ob.update(verdict=INCONCLUSIVE, reason="no end-to-end replay available (erg did not build): " + ob["reason"])
             continue
         got, raw, note = transpile(s, exe, "site_" + k.replace("-", "_"), site["program"])
+        if note.startswith("no output file"):
+            ob.update(verdict=INCONCLUSIVE, reason="the replay module did not compile (%s): %s" % (note[:120], ob["reason"]))
+            continue
         differs = got != site["expect"]
         ob["end_to_end"] = {"program": site["program"], "output": raw[:600], "json.loads": note or "ok", "expected": site["expect"], "differs": differs}
         log("  e2e %s: %s" % (ob["key"], note or ("differs" if differs else "same value")))
@@ -229,3 +232,33 @@ def e2e_writer(s, kviol, exe):
         ob["end_to_end"] = {"program": prog, "output": raw[:600], "json.loads": note or "ok", "expected": expect, "differs": got != expect,
                             "note": "battery of fixed values; the counterexample itself is replayed natively against the writer"}
     log("  e2e writer battery: %s" % (note or ("differs" if got != expect else "same values")))
+
+
+def e2e_struct(s, viol, exe):
+    """a violated structure obligation: a battery of container displays, end to end"""
+    exe = exe or build_exe(s)
+    prog = ('.l1 = [1]\n.l2 = [1, 2]\n.l3 = [1, 2, 3]\n.t2 = (1, "a")\n.t3 = (1, 2, 3)\n.r1 = {.x = 1}\n.r2 = {.x = 1; .y = "z"}\n.r3 = {.x = 1; .y = 2; .z = 3}\n'
+            '.d1 = {"k": 1}\n.d2 = {"k": 1, "l": 2}\n.n = [[1, 2], [3, 4]]\n.m = {.a = [1, 2]; .b = (3, {.c = "d"})}\n'
+            '.le = []\n.te = ()\n.re = {=}\n.de = {:}\n.x = {.items = (); .n = 1}\n'
+            '.vl = [1, 2]\n.vl2 = .vl\n.vt = (1, "a")\n.vt2 = .vt\n.vd = {"k": None, "j": None}\n.vd2 = .vd\n.vr = {.v = True; .n = 2}\n.vr2 = .vr\n')
+    expect = {"l1": [1], "l2": [1, 2], "l3": [1, 2, 3], "t2": [1, "a"], "t3": [1, 2, 3], "r1": {"x": 1}, "r2": {"x": 1, "y": "z"}, "r3": {"x": 1, "y": 2, "z": 3},
+              "d1": {"k": 1}, "d2": {"k": 1, "l": 2}, "n": [[1, 2], [3, 4]], "m": {"a": [1, 2], "b": [3, {"c": "d"}]},
+              "le": [], "te": [], "re": {}, "de": {}, "x": {"items": [], "n": 1},
+              "vl": [1, 2], "vl2": [1, 2], "vt": [1, "a"], "vt2": [1, "a"], "vd": {"k": None, "j": None}, "vd2": {"k": None, "j": None},
+              "vr": {"v": True, "n": 2}, "vr2": {"v": True, "n": 2}}
+    for ob in viol:
+        if not exe:
+            ob.update(verdict=INCONCLUSIVE, reason="no end-to-end replay available (erg did not build): " + ob["reason"])
+            continue
+        got, raw, note = transpile(s, exe, "struct_battery", prog)
+        if note.startswith("no output file"):
+            ob.update(verdict=INCONCLUSIVE, reason="the replay battery did not compile (%s): %s" % (note[:120], ob["reason"]))
+            differs = None
+            continue
+        differs = got != expect
+        ob["end_to_end"] = {"program": prog, "output": raw[:900], "json.loads": note or "ok", "expected": expect, "differs": differs}
+        if not differs:
+            ob["verdict"] = INCONCLUSIVE
+            ob["reason"] = "the structure differs from the reference, but the replay battery transpiles to the expected JSON (%s)" % ob["reason"]
+    log("  e2e structure battery: %s" % ("no erg" if not exe else (note or ("differs" if differs else "same values"))))
+    return exe
